@@ -29,6 +29,7 @@ STATES = [
     "refresh-closing-one-broker",
     "refresh-closing-two-brokers",
     "metadata-load-via-broker",
+    "metadata-load-via-only-broker",
 ]
 
 REQUIRED_LABELS = [
@@ -187,6 +188,17 @@ def scenario(job):
                 first = [t for t in cl.net.closing_transports() if (t.attempt.host, t.attempt.port) == (h1, p1)]
                 if first and ctx.choose("first_gone_before_close", 2) == 1:
                     first[0].drop()
+        elif state == "metadata-load-via-only-broker":
+            # the cluster has shrunk to one broker: a broker-unaware request in flight on it has no other broker to fall back to
+            cl.addr.pop(2)
+            cl.addr.pop(3)
+            cl.leaders[("t", 1)] = 1
+            cl.leaders[("t", 2)] = 1
+            warm([("t", 0)])
+            r = op("refresh", client.load_metadata_for_topics())
+            settle(r)
+            ops.pop()
+            op("metadata", client.load_metadata_for_topics("zz"))
         elif state == "metadata-load-via-broker":
             warm([("t", 0)])
             op("metadata", client.load_metadata_for_topics("zz"))
